@@ -9,6 +9,7 @@ import (
 
 type mapInfo struct {
 	key     string // type key
+	strKey  bool   // string keys: the key sort is Int, the key term is the string's identity strid(ptr, len)
 	kSort   string
 	vLeaves []Leaf
 	domSite string
@@ -19,10 +20,17 @@ type mapInfo struct {
 func (u *Unit) mapInfo(t types.Type) *mapInfo {
 	m := t.Underlying().(*types.Map)
 	kl := leavesOf(m.Key(), "elem")
-	if len(kl) != 1 {
+	isStr := false
+	if b, ok := m.Key().Underlying().(*types.Basic); ok && b.Info()&types.IsString != 0 {
+		isStr = true
+	}
+	if len(kl) != 1 && !isStr {
 		unsupportedf("map key type %s", m.Key())
 	}
 	mi := &mapInfo{key: typeKey(t), kSort: kl[0].Sort, vLeaves: leavesOf(m.Elem(), "elem")}
+	if isStr {
+		mi.strKey, mi.kSort = true, SInt
+	}
 	mi.domSite = "map." + mi.key + ".dom"
 	mi.lenSite = "map." + mi.key + ".len"
 	for j := range mi.vLeaves {
@@ -32,6 +40,55 @@ func (u *Unit) mapInfo(t types.Type) *mapInfo {
 		mapKeySort[site] = mi.kSort
 	}
 	return mi
+}
+
+// String keys. Strings are immutable and compared by content, so a key is identified by strid(ptr, len), an
+// uninterpreted function constrained pairwise: two key strings used in this unit have the same identity exactly when
+// their contents are equal. strptr/strlen give back a representative string for an identity (used by iteration and by
+// quantification over keys); strid(strptr(i), strlen(i)) = i is assumed for every identity that is looked at.
+const stridFn, strptrFn, strlenFn = "strid", "strkey.ptr", "strkey.len"
+
+func (u *Unit) ensureStrKeys() {
+	if u.strKeyDecl {
+		return
+	}
+	u.strKeyDecl = true
+	u.ctx.declareFun(stridFn, []string{SInt, SInt}, SInt)
+	u.ctx.declareFun(strptrFn, []string{SInt}, SInt)
+	u.ctx.declareFun(strlenFn, []string{SInt}, SInt)
+}
+
+// strKeyTerm returns the identity term of string value k and relates it to every key string seen before.
+func (u *Unit) strKeyTerm(strArr string, k Val) string {
+	u.ensureStrKeys()
+	id := u.ctx.def("strkey", SInt, app(stridFn, k.S[0], k.S[1]))
+	sig := k.S[0] + "\x00" + k.S[1]
+	for _, old := range u.strKeys {
+		if old.sig == sig {
+			return id
+		}
+	}
+	for _, old := range u.strKeys {
+		e := u.strEqArr(strArr, old.v, k)
+		u.ctx.assert("strkey", eq(eq(old.id, id), e))
+	}
+	u.strKeys = append(u.strKeys, strKeyRec{sig: sig, v: k, id: id})
+	return id
+}
+
+func (u *Unit) mapKeyTerm(st *state, mi *mapInfo, k Val) string {
+	if !mi.strKey {
+		return k.S[0]
+	}
+	return u.strKeyTerm(u.arr(st.mem, strSite, SBV(8)), k)
+}
+
+// keyString returns a representative string value for identity term id.
+func (u *Unit) keyString(id string, t types.Type) Val {
+	u.ensureStrKeys()
+	p, n := app(strptrFn, id), app(strlenFn, id)
+	u.ctx.assert("strkey", and(eq(app(stridFn, p, n), id), le("0", n), le(n, "1099511627776"), le("0", p)))
+	return Val{T: t, S: []string{p, n}}
 }
 
 func (u *Unit) mapDom(st *state, mi *mapInfo) string {
@@ -74,6 +131,7 @@ func (f *Frame) mapUpdate(x *ssa.MapUpdate, st *state) {
 func (u *Unit) mapStore(st *state, m Val, t types.Type, k, v Val) {
 	mi := u.mapInfo(t)
 	dom := u.mapDom(st, mi)
+	k = Val{T: k.T, S: []string{u.mapKeyTerm(st, mi, k)}}
 	present := u.ctx.def("mpres", SBool, sel(sel(dom, m.S[0]), k.S[0]))
 	u.setArr(st.mem, mi.domSite, SArr(mi.kSort, SBool), store(dom, m.S[0], store(sel(dom, m.S[0]), k.S[0], "true")))
 	ln := u.arr(st.mem, mi.lenSite, SInt)
@@ -87,6 +145,7 @@ func (u *Unit) mapStore(st *state, m Val, t types.Type, k, v Val) {
 func (u *Unit) mapDelete(st *state, m Val, t types.Type, k Val) {
 	mi := u.mapInfo(t)
 	dom := u.mapDom(st, mi)
+	k = Val{T: k.T, S: []string{u.mapKeyTerm(st, mi, k)}}
 	present := u.ctx.def("mpres", SBool, and(not(eq(m.S[0], "0")), sel(sel(dom, m.S[0]), k.S[0])))
 	u.setArr(st.mem, mi.domSite, SArr(mi.kSort, SBool), ite(eq(m.S[0], "0"), dom, store(dom, m.S[0], store(sel(dom, m.S[0]), k.S[0], "false"))))
 	ln := u.arr(st.mem, mi.lenSite, SInt)
@@ -106,6 +165,7 @@ func (u *Unit) mapGet(st *state, m Val, t types.Type, k Val) (string, Val) {
 	mi := u.mapInfo(t)
 	mt := t.Underlying().(*types.Map)
 	dom := u.mapDom(st, mi)
+	k = Val{T: k.T, S: []string{u.mapKeyTerm(st, mi, k)}}
 	present := u.ctx.def("mhas", SBool, and(not(eq(m.S[0], "0")), sel(sel(dom, m.S[0]), k.S[0])))
 	v := Val{T: mt.Elem()}
 	for j, l := range mi.vLeaves {
@@ -191,9 +251,18 @@ func (f *Frame) nextInstr(x *ssa.Next, st *state) {
 	u.setArr(st.mem, site, SArr(mi.kSort, SBool), store(vis, info.addr, ite(ok, store(visited, k, "true"), visited)))
 	// value
 	kv := Val{T: mt.Key(), S: []string{k}}
-	if !u.noAssume {
-		if tf := u.typingFact(kv, st.mem); tf != "true" {
-			u.ctx.assert("typing", implies(st.reach, tf))
+	var keyOut []string
+	if mi.strKey {
+		ks := u.keyString(k, mt.Key())
+		u.strKeys = append(u.strKeys, strKeyRec{sig: ks.S[0] + "\x00" + ks.S[1], v: ks, id: k})
+		keyOut = ks.S
+		kv = ks
+	} else {
+		keyOut = []string{k}
+		if !u.noAssume {
+			if tf := u.typingFact(kv, st.mem); tf != "true" {
+				u.ctx.assert("typing", implies(st.reach, tf))
+			}
 		}
 	}
 	_, v := u.mapGet(st, info.m, info.mapT, kv)
@@ -201,7 +270,7 @@ func (f *Frame) nextInstr(x *ssa.Next, st *state) {
 	tup := x.Type().(*types.Tuple)
 	// tuple is (ok bool, k K, v V) but components may be "invalid" typed when unused
 	if len(leavesOfSafe(tup.At(1).Type())) > 0 {
-		out.S = append(out.S, k)
+		out.S = append(out.S, keyOut...)
 	}
 	if n := len(leavesOfSafe(tup.At(2).Type())); n > 0 {
 		out.S = append(out.S, v.S...)
